@@ -1,14 +1,14 @@
 """Per-property job table for ./check (DESIGN.md §2.1).
 
 Each job: cmd (vworker sub-command), race (build with -race), batches {tier: n children},
-timeout {tier: seconds per child}, optional: args, env, tags, par, fatal_is_violation,
+timeout {tier: seconds per child}, optional: args, env, tags, par, fatal_is_violation (True: any death of the child incl. a watchdog kill is a violation; "crash-only": only a Go fatal error / panic is, a watchdog kill stays "broken"),
 race_anchors (function-name substrings: a race report with BOTH top mosn frames inside
 them is a violation), needs_mosn_binary.
 """
 
 JOBS = {
     "C17": [
-        {"cmd": "c17-engine", "race": True, "batches": {"quick": 2, "thorough": 6}, "timeout": {"quick": 900, "thorough": 3000}},
+        {"cmd": "c17-engine", "race": True, "batches": {"quick": 2, "thorough": 6}, "timeout": {"quick": 900, "thorough": 3000}, "fatal_is_violation": "crash-only"},
     ],
     "C18": [
         {"cmd": "c18-hpack", "race": False, "timeout": {"quick": 300, "thorough": 1800}, "fatal_is_violation": True},
@@ -16,7 +16,7 @@ JOBS = {
         {"cmd": "c18-flow", "race": True, "timeout": {"quick": 600, "thorough": 2400}},
     ],
     "C14": [
-        {"cmd": "c14-engine", "race": True, "batches": {"quick": 12, "thorough": 12}, "timeout": {"quick": 600, "thorough": 2400}},
+        {"cmd": "c14-engine", "race": True, "batches": {"quick": 12, "thorough": 12}, "timeout": {"quick": 600, "thorough": 2400}, "fatal_is_violation": "crash-only"},
     ],
     "C19": [
         {"cmd": "c19-codec", "race": False, "batches": {"quick": 4, "thorough": 16}, "timeout": {"quick": 300, "thorough": 1500}},
@@ -34,11 +34,12 @@ JOBS = {
         {"cmd": "c01-xe2e", "race": False, "batches": {"quick": 2, "thorough": 6}, "timeout": {"quick": 600, "thorough": 2400}},
     ],
     "C02": [
-        {"cmd": "c02-engine", "race": True, "batches": {"quick": 2, "thorough": 6}, "timeout": {"quick": 600, "thorough": 2400}},
+        {"cmd": "c02-engine", "race": True, "batches": {"quick": 2, "thorough": 6}, "timeout": {"quick": 600, "thorough": 2400}, "fatal_is_violation": "crash-only"},
         {"cmd": "c02-wrap", "race": True, "timeout": {"quick": 300, "thorough": 900}},
     ],
     "C03": [
-        {"cmd": "c03-engine", "race": True, "batches": {"quick": 2, "thorough": 6}, "timeout": {"quick": 600, "thorough": 2400}},
+        {"cmd": "c03-engine", "race": True, "batches": {"quick": 2, "thorough": 6}, "timeout": {"quick": 600, "thorough": 2400}, "fatal_is_violation": "crash-only"},
+        {"cmd": "c03-storm", "race": True, "batches": {"quick": 1, "thorough": 4}, "timeout": {"quick": 600, "thorough": 2400}, "fatal_is_violation": "crash-only"},
         {"cmd": "c03-steer", "race": True, "batches": {"quick": 8, "thorough": 16}, "timeout": {"quick": 900, "thorough": 3600}},
     ],
     "C04": [
@@ -71,11 +72,11 @@ JOBS = {
         {"cmd": "c08-xe2e", "race": True, "batches": {"quick": 2, "thorough": 4}, "timeout": {"quick": 600, "thorough": 2400}, "fatal_is_violation": True},
     ],
     "C09": [
-        {"cmd": "c09-engine", "race": True, "batches": {"quick": 2, "thorough": 6}, "timeout": {"quick": 900, "thorough": 3600}},
+        {"cmd": "c09-engine", "race": True, "batches": {"quick": 2, "thorough": 6}, "timeout": {"quick": 900, "thorough": 3600}, "fatal_is_violation": "crash-only"},
     ],
     "C10": [
-        {"cmd": "c10-engine", "race": True, "batches": {"quick": 2, "thorough": 6}, "timeout": {"quick": 600, "thorough": 2400}},
-        {"cmd": "c10-tcp", "race": True, "batches": {"quick": 1, "thorough": 4}, "timeout": {"quick": 600, "thorough": 2400}},
+        {"cmd": "c10-engine", "race": True, "batches": {"quick": 2, "thorough": 6}, "timeout": {"quick": 600, "thorough": 2400}, "fatal_is_violation": "crash-only"},
+        {"cmd": "c10-tcp", "race": True, "batches": {"quick": 1, "thorough": 4}, "timeout": {"quick": 600, "thorough": 2400}, "fatal_is_violation": "crash-only"},
     ],
     "C11": [
         {"cmd": "c11-proc", "race": False, "needs_mosn_binary": True, "batches": {"quick": 2, "thorough": 3}, "timeout": {"quick": 900, "thorough": 2400}},
@@ -92,7 +93,7 @@ JOBS = {
     "C15": [
         {"cmd": "c15-model", "race": False, "batches": {"quick": 4, "thorough": 16}, "timeout": {"quick": 300, "thorough": 900}},
         {"cmd": "c15-exh", "race": False, "batches": {"quick": 2, "thorough": 8}, "timeout": {"quick": 300, "thorough": 900}},
-        {"cmd": "c15-e2e", "race": True, "batches": {"quick": 2, "thorough": 6}, "timeout": {"quick": 400, "thorough": 1500}},
+        {"cmd": "c15-e2e", "race": True, "batches": {"quick": 2, "thorough": 6}, "timeout": {"quick": 400, "thorough": 1500}, "fatal_is_violation": "crash-only"},
     ],
     "C16": [
         {"cmd": "c16-steer", "race": True, "timeout": {"quick": 300, "thorough": 900},
